@@ -117,7 +117,20 @@ func (p *frame) toBytes() []byte {
 }
 
 func fromBytes(b []byte) (*frame, error) {
+	// b is exactly what was received: the header must be complete and the
+	// length field must not point past the end of the datagram
+	if len(b) == 10 && b[1]&(1<<REQIdx|1<<RESPIdx) != 0 {
+		// initiate frames have a 10-byte header and no data; the receiver
+		// re-parses them with fromInitiateBytes
+		b = append(append([]byte(nil), b...), 0, 0)
+	}
+	if len(b) < 12 {
+		return nil, errMalformedFrame
+	}
 	dataLength := binary.BigEndian.Uint16(b[2:4])
+	if int(dataLength) > len(b)-12 {
+		return nil, errMalformedFrame
+	}
 	return &frame{
 		tubeID:     b[0],
 		flags:      metaToFlags(b[1]),
